@@ -260,6 +260,12 @@ where
     T: FloatT,
 {
     pub(crate) fn unscale(&mut self, data: &DefaultProblemData<T>, is_infeasible: bool) {
+        #[cfg(clarabel_verif)]
+        crate::verif_hooks::term::record_pre_unscale(
+            num_traits::ToPrimitive::to_f64(&self.τ).unwrap_or(f64::NAN),
+            num_traits::ToPrimitive::to_f64(&self.κ).unwrap_or(f64::NAN),
+            is_infeasible,
+        );
         // if we have an infeasible problem, normalize
         // using κ to get an infeasibility certificate.
         // Otherwise use τ to get an unscaled solution.
